@@ -128,9 +128,19 @@ StepWB(G, A, n, x, ev) ==
     ELSE x
 RECURSIVE RunWB(_, _, _, _, _, _)
 RunWB(G, A, n, x, evs, i) == IF i > Len(evs) THEN x ELSE RunWB(G, A, n, StepWB(G, A, n, x, evs[i]), evs, i + 1)
+(* closure of a set of permutations under composition with the generators, frontier by frontier *)
+RECURSIVE ClosureFr(_, _, _)
+ClosureFr(S, F, gens) == LET N == { [x \in DOMAIN g |-> g[s[x]]] : g \in gens, s \in F } \ S IN IF N = {} THEN S ELSE ClosureFr(S \cup N, N, gens)
+(* Aut(G): by brute force for small graphs; for the larger structured graphs of the harness (disjoint unions of cycles and their      *)
+(* complements) generated from the automorphisms known by construction, and accepted only if the group has the order the construction  *)
+(* predicts (e.order) and every generator is an automorphism.                                                                          *)
+KnownGens(e) == { FnOfSeq(e.known[k]) : k \in 1..Len(e.known) }
 JudgeWB(e) ==
-    LET G == RelabelS(GofJ(e.g), e.pi)  n == G.n  A == AutF(G, <<>>) IN
+    LET G == RelabelS(GofJ(e.g), e.pi)  n == G.n
+        A == IF Len(e.known) = 0 THEN AutF(G, <<>>) ELSE ClosureFr({ [x \in Verts(n) |-> x] }, { [x \in Verts(n) |-> x] }, KnownGens(e)) IN
     IF e.res # "ok" THEN e.res
+    ELSE IF Len(e.known) > 0 /\ (\E f \in KnownGens(e) : ~IsAutF(G, f, <<>>)) THEN "HARNESS: a 'known' automorphism is not one"
+    ELSE IF Len(e.known) > 0 /\ Cardinality(A) # e.order THEN "HARNESS: the known automorphisms do not generate a group of the predicted order"
     ELSE IF n = 0 \/ G.E = {} THEN ""
     ELSE LET x == RunWB(G, A, n, WB0, e.evs, 1) IN
          IF x.why # "" THEN x.why
